@@ -347,9 +347,13 @@ fn make_hook(sched: &Arc<Sched>, name: &'static str, k: usize, is_async: bool) -
         Hook::async_fn(move |obj: &mut Tracked, m: &Metrics| {
             let ev = format!("{}({},{},{})", name, cur_op(), k, show_obj(&sched, obj.id, m));
             let fut = Scripted::new(&sched, format!("{}[{}]", name, k), ev, true);
+            // both variants of `HookError` are used
+            let backend = (k as u64 + obj.id) % 2 == 0;
             Box::pin(async move {
                 if fut.await {
                     Ok(())
+                } else if backend {
+                    Err(HookError::Backend(()))
                 } else {
                     Err(HookError::message("scripted"))
                 }
@@ -361,6 +365,7 @@ fn make_hook(sched: &Arc<Sched>, name: &'static str, k: usize, is_async: bool) -
             let mut s = Scripted::new(&sched, format!("{}[{}]", name, k), ev, false);
             match s.decide() {
                 Ok(true) => Ok(()),
+                Ok(false) if (k as u64 + obj.id) % 2 == 0 => Err(HookError::Backend(())),
                 Ok(false) => Err(HookError::message("scripted")),
                 Err(()) => panic!("harness bug: pending for a sync hook"),
             }
